@@ -8,6 +8,7 @@ import (
 	"path/filepath"
 	"regexp"
 	"strings"
+	"sync"
 	"time"
 
 	"github.com/mimecast/dtail/internal/mapr"
@@ -55,6 +56,57 @@ type c11Result struct {
 func init() {
 	Drivers["C11"] = c11
 	Children["c11"] = c11Child
+	Children["c11conc"] = c11ConcChild
+}
+
+// c11ConcChild: the server parses the queries of all its sessions in one
+// process. Every query is parsed once alone and then again while 7 other
+// goroutines parse other queries in a tight loop; both results must agree.
+func c11ConcChild(args []string) int {
+	dir := args[0]
+	dt.Init(source.Client, "none", "none", "error", true)
+	return vlib.BatchMain(dir, func(i int, raw json.RawMessage) interface{} {
+		var qs []string
+		json.Unmarshal(raw, &qs)
+		alone := make([]string, len(qs))
+		for k, q := range qs {
+			b, _ := json.Marshal(c11Parse(q))
+			alone[k] = string(b)
+		}
+		type mm struct {
+			Q, Alone, Concurrent string
+		}
+		var mu sync.Mutex
+		var mismatches []mm
+		parses := 0
+		var wg sync.WaitGroup
+		for g := 0; g < 8; g++ {
+			wg.Add(1)
+			go func(g int) {
+				defer wg.Done()
+				n := 0
+				for rep := 0; rep < 6; rep++ {
+					for k := g; k < len(qs)+g; k++ {
+						idx := (k*7 + rep) % len(qs)
+						b, _ := json.Marshal(c11Parse(qs[idx]))
+						n++
+						if string(b) != alone[idx] {
+							mu.Lock()
+							if len(mismatches) < 3 {
+								mismatches = append(mismatches, mm{qs[idx], alone[idx], string(b)})
+							}
+							mu.Unlock()
+						}
+					}
+				}
+				mu.Lock()
+				parses += n
+				mu.Unlock()
+			}(g)
+		}
+		wg.Wait()
+		return map[string]interface{}{"parses": parses, "mismatches": mismatches}
+	})
 }
 
 func c11Parse(qs string) (res c11Result) {
@@ -375,6 +427,31 @@ func c11Body(r *vlib.Run) int {
 		}
 	}
 	os.RemoveAll(scratch)
+	// concurrent parsing tier
+	var ccases []interface{}
+	per := 400
+	for lo := 0; lo+per <= len(texts) && len(ccases) < r.N(14, 140); lo += per {
+		ccases = append(ccases, texts[lo:lo+per])
+	}
+	cres, ccrashes := r.RunBatches("c11conc", ccases, 1, 14, nil, nil)
+	for _, cr := range ccrashes {
+		r.Violation("concurrent-parse-crash", map[string]interface{}{"stderr": vlib.Trunc(string(cr.Result.Stderr), 3000)})
+	}
+	for _, raw := range cres {
+		if raw == nil {
+			continue
+		}
+		var res struct {
+			Parses     int `json:"parses"`
+			Mismatches []struct{ Q, Alone, Concurrent string }
+		}
+		json.Unmarshal(raw, &res)
+		r.Evals(res.Parses)
+		r.Count("concurrent_parses", res.Parses)
+		for _, m := range res.Mismatches {
+			r.Violation("parse-differs-under-concurrency", map[string]interface{}{"query": m.Q, "parsed_alone": m.Alone, "parsed_concurrently": m.Concurrent})
+		}
+	}
 	return (nValid + nMal) / 2
 }
 
